@@ -56,15 +56,9 @@ theorem plUpdate_defined (d : Db) (i : Int) (title : Bytes) (parent next : Int) 
         · exact Defined.throw _
         · exact Defined.ok _
 
-theorem peAddBack_defined (d : Db) (l t : Int) (f : Bool) : Defined (peAddBack d l t f).2 := by
+theorem peAddBack_defined (d : Db) (l t u : Int) (f : Bool) : Defined (peAddBack d l t u f).2 := by
   unfold peAddBack
-  cases peGet d l t with
-  | none => exact Defined.ok _
-  | some e =>
-    simp only
-    split
-    · exact Defined.throw _
-    · exact Defined.ok _
+  (repeat' split) <;> first | exact Defined.ok _ | exact Defined.throw _
 
 theorem step_defined (d : Db) (op : Op) : Defined (step d op).2 := by
   cases op with
@@ -133,12 +127,12 @@ theorem step_defined (d : Db) (op : Op) : Defined (step d op).2 := by
     · exact Defined.throw _
     · split
       · exact Defined.throw _
-      · exact peAddBack_defined _ _ _ _
+      · exact peAddBack_defined _ _ _ _ _
   | removeTrackFrom c t =>
     simp only [step]
     cases peGet d c t <;> exact Defined.ok _
   | clearTracks c => exact Defined.ok _
-  | peAddBack l t f => exact peAddBack_defined _ _ _ _
+  | peAddBack l t uu f => exact peAddBack_defined _ _ _ _ _
   | peRemove l e =>
     simp only [step]; split
     · exact Defined.throw _
